@@ -208,7 +208,7 @@ pub static C01: HistProp = HistProp {
 pub static C02_META: PropMeta = PropMeta {
     id: "C02",
     level: "exploration",
-    rule: "cases: generated histories biased to many simultaneously pending causes of mixed kinds (pings, messages, closed channels, expired timers, fds of every interest x mode pair on eventfd/socketpair/pipe, readiness predating insert/enable/update). oracle: obligation snapshot at dispatch start (poll(2) ground truth for fds) must be served by an Ok dispatch unless a callback of the same dispatch removed/disabled/re-registered the source; one-shot fds at most once per arming; edge fds at least once per harness-made transition. non-trivial: >= 3 sources of >= 2 kinds obligated in one dispatch, or an Edge/OneShot registration obligated after a transition; distinct by case fingerprint",
+    rule: "(hist) cases: generated histories biased to many simultaneously pending causes of mixed kinds (pings, messages, closed channels, expired timers, fds of every interest x mode pair on eventfd/socketpair/pipe, readiness predating insert/enable/update). oracle: obligation snapshot at dispatch start (poll(2) ground truth for fds) must be served by an Ok dispatch unless a callback of the same dispatch removed/disabled/re-registered the source; one-shot fds at most once per arming; edge fds at least once per harness-made transition. non-trivial: >= 3 sources of >= 2 kinds obligated in one dispatch, or an Edge/OneShot registration obligated after a transition; distinct by case fingerprint. (xthread.*) the generated thread schedules of the C03 / C04 / C10 families (ping, channel, executor causes produced by other threads while the loop dispatches; their own case descriptions and non-trivial rules apply), judged only by their lost-wake-up rules",
     assumptions: ASSUME,
 };
 
@@ -793,7 +793,7 @@ pub static C15: HistProp = HistProp {
 pub static C16_META: PropMeta = PropMeta {
     id: "C16",
     level: "exploration",
-    rule: "cases: histories over fd-backed sources (Generic on eventfd/socketpair/pipe with all interest x mode pairs, ping, channel, probe sub-pings): insert, remove, disable, enable, update with changed interest/mode, into_source_inner + Generic::unwrap followed by re-insertion of the same fd, loop dropped before or after the sources. oracle after every step: /proc/self/fdinfo/<epoll fd> minus polling's own entries must hold exactly the keys of enabled sources; for Generic fds exact interest bits, mode bits and key. non-trivial: a released fd re-inserted, or interest/mode changed by update; distinct by case fingerprint",
+    rule: "cases: histories over fd-backed sources (Generic on eventfd/socketpair/pipe with all interest x mode pairs, ping, channel, probe sub-pings): insert, remove, disable, enable, update with changed interest/mode, into_source_inner + Generic::unwrap followed by re-insertion of the same fd, loop dropped before or after the sources. oracle after every step: /proc/self/fdinfo/<epoll fd> minus polling's own entries must hold exactly the keys of enabled sources; for Generic fds exact interest bits, mode bits and key. non-trivial: a released fd re-inserted, or interest/mode changed by update; distinct by case fingerprint; Generic sources may also be created over one of two shared eventfds (borrowed fd: at most one of the sources over it is registered at a time)",
     assumptions: ASSUME,
 };
 
